@@ -546,9 +546,9 @@ impl<T: Transport + 'static> SyncEngine<T> {
 
             // A symlink at the destination path is never an up-to-date copy of a
             // regular file, whatever it points to (the comparison above looked
-            // through it)
+            // through it); a dangling one is replaced, not "created"
             if !file.is_dir
-                && task.action == SyncAction::Skip
+                && matches!(task.action, SyncAction::Skip | SyncAction::Create)
                 && task.source.as_ref().is_some_and(|f| !f.is_symlink)
                 && matches!(self.transport.read_link(&task.dest_path).await, Ok(Some(_)))
             {
